@@ -30,11 +30,12 @@ func init() {
 		ID: "C08", Name: "typed-views", Level: "model_checking",
 		Rule: "static: all pointer-reinterpreting conversion sites of the package x all fields of the target struct (layout invariant on gc/amd64 sizes, cross-checked with reflect); " +
 			"dynamic: 14 helpers (To* and On*) x 14 source structs x {pointer, value} on saturated sources with pairwise distinct field contents, read and write-through per shared property, " +
+			"containment (a view that aliases the value is never a larger struct); application-defined twin types of the 14 structs x every ordered pair of helpers (history: h1 then h2); " +
 			"executed under the runtime pointer checker (-gcflags=all=-d=checkptr); non-trivial = helper/source pair for which a view is returned",
 		Assumptions: []string{"layouts are those of gc/amd64 (types.SizesFor), cross-checked against reflect on the machine that runs the check",
 			"checkptr alone is not sufficient (an overrun inside the allocator's size class is not reported), which is why the static invariant is the deciding one"},
 		Bound: func(string) string {
-			return "complete in both tiers: every conversion site x field; every helper x source x form x shared property"
+			return "complete in both tiers: every conversion site x field; every helper x source x form x shared property; 14 foreign types x 14 x 14 helper pairs x {To, On}"
 		},
 		Pre: c08Pre,
 		WorkerBinary: func(p *engine.Parent) string {
@@ -186,7 +187,80 @@ func c08TermIndex(t reflect.Type) map[string]int {
 	return m
 }
 
+// c08Containment: a view that is the SAME memory as the value it was made from (a reinterpretation, not a copy) must not be a
+// larger struct than that value - whatever route produced it (unsafe.Pointer conversion, reflect.Value.UnsafePointer, ...).
+func c08Containment(t *engine.T, class string, src any, view any) {
+	sv, vv := reflect.ValueOf(src), reflect.ValueOf(view)
+	if sv.Kind() != reflect.Pointer || vv.Kind() != reflect.Pointer || sv.IsNil() || vv.IsNil() {
+		return
+	}
+	if sv.Pointer() != vv.Pointer() {
+		return // a copy
+	}
+	if vs, ss := vv.Type().Elem().Size(), sv.Type().Elem().Size(); vs > ss {
+		t.Fail(class+"|view-larger-than-value", "the view is a %s of %d bytes over a %s of %d bytes: its last %d bytes lie outside the value", vv.Type().Elem(), vs, sv.Type().Elem(), ss, vs-ss)
+	}
+}
+
+// c08ForeignHistories: application-defined twin types of the 14 structs x every ordered pair of helpers (first h1, then h2 on the
+// same value; To and On): whatever was converted before, h2 either refuses or returns a view that stays inside the value and
+// reads the shared properties identically.
+func c08ForeignHistories(c *engine.Ctx) {
+	helpers := c08Helpers()
+	for i := range universe.Structs {
+		src := &universe.Structs[i]
+		for _, h1 := range helpers {
+			for _, h2 := range helpers {
+				for _, via := range []string{"To", "On"} {
+					src, h1, h2, via := src, h1, h2, via
+					class := fmt.Sprintf("C08|dynamic|foreign|%s%s|%s", via, h2.name, src.Name)
+					c.Do(class, func() string {
+						return fmt.Sprintf("application-defined type over %s: %s%s(x), then %s%s(x)", src.Name, via, h1.name, via, h2.name)
+					}, func(t *engine.T) {
+						rec := c08Saturated(src)
+						x := rec.Build()
+						it := c08Foreign(x)
+						if it == nil {
+							t.Fail(class+"|harness", "no foreign twin for %T", x)
+							return
+						}
+						call := func(h c08Helper) (any, error) {
+							var view any
+							var err error
+							if via == "To" {
+								view, err = h.to(it)
+							} else {
+								err = h.on(it, func(p any) { view = p })
+							}
+							t.Ops(1)
+							return view, err
+						}
+						call(h1)
+						view, err := call(h2)
+						if err != nil || view == nil || reflect.ValueOf(view).IsNil() {
+							t.Distinct(false)
+							t.Outcome("refused")
+							return
+						}
+						t.Distinct(true)
+						t.Outcome("view")
+						c08Containment(t, class, x, view)
+						vv, sv := reflect.ValueOf(view).Elem(), reflect.ValueOf(x).Elem()
+						vIdx, sIdx := c08TermIndex(vv.Type()), c08TermIndex(sv.Type())
+						for term, vi := range vIdx {
+							if si, ok := sIdx[term]; ok && vv.Field(vi).Type() == sv.Field(si).Type() && !reflect.DeepEqual(vv.Field(vi).Interface(), sv.Field(si).Interface()) {
+								t.Fail(class+"|"+term+"|reads-differently", "property %s reads differently through the view after %s%s then %s%s", term, via, h1.name, via, h2.name)
+							}
+						}
+					})
+				}
+			}
+		}
+	}
+}
+
 func c08Run(c *engine.Ctx) {
+	c08ForeignHistories(c)
 	for _, h := range c08Helpers() {
 		for i := range universe.Structs {
 			src := &universe.Structs[i]
@@ -236,6 +310,7 @@ func c08Run(c *engine.Ctx) {
 						if vv.Type().Name() != h.target {
 							t.Fail(class+"|wrong-view-type", "view is a %s", vv.Type())
 						}
+						c08Containment(t, class, x, view)
 						vIdx, sIdx := c08TermIndex(vv.Type()), c08TermIndex(sv.Type())
 						shared := 0
 						for term, vi := range vIdx {
